@@ -2,28 +2,30 @@
    "Parsing any byte string as a module or as a component either returns a parsed value or an error; it never
     panics or aborts."
 
-   The property is FALSE of /repo today: twelve panic sites of the parse path are reachable (classes 901..912,
-   known_findings.json D09a..D09l), nine of them on inputs that wasmparser's validator accepts.  What is
-   established instead:
+   Until the `fix:` commits for D09a..D09l the property was false: twelve panic sites of the parse path were
+   reachable (classes 901..912), nine of them on inputs that wasmparser's validator accepts.  All twelve are repaired
+   (known_findings.json `fixed`); the table `known_panic_sites` is empty.  What is established now:
 
-   * C03_partial / C03_partial_component (Coq proof, every abstract input, no size bound): the glue model of
-     Module::parse / Component::parse (Model/ParseGlue.v -- what the code does with the payloads wasmparser
-     yields) panics only at sites of the committed table `known_panic_sites`.  It is *partial* because
+   * C03_model_never_panics / C03_model_never_panics_component (Coq proof, every abstract input, no size bound): the
+     glue model of Module::parse / Component::parse (Model/ParseGlue.v -- what the code does with the payloads
+     wasmparser yields) never answers Panic.  (C03_partial / C03_partial_component are the same statements through the
+     table of known sites, kept so that a future known site only has to be added to the table.)
+     It is still *partial* because
        - the input is the payload abstraction, not the bytes: wasmparser (framing, LEB and operator decoding,
          its own limits) is outside the model, and so are panics *inside wasmparser*, allocation failure
          (a huge count passed to a collect / with_capacity) and stack exhaustion on deeply nested components;
        - the model is hand-written; it is tied to /repo by (a) the in-Coq differential run on fuzzed inputs
-         (model prediction =? observed Ok / Err / Panic site of the three real parse calls) and (b) the inventory
-         obligation below;
-       - for abstract inputs on which the model answers OUnmodelled (constant-expression shapes that the reader
-         never produces, payload streams of more than 3000 events) nothing is claimed.
-   * C03_refuted_* : the property is refuted -- one example per known site; those marked (valid) are abstractions of
-     byte strings that wasmparser's validator (all features) accepts.
+         (model prediction =? observed Ok / Err / Panic site of the three real parse calls; any observed panic is now
+         an unlisted failure) and (b) the inventory obligation below;
+       - for abstract inputs on which the model answers OUnmodelled (payload streams of more than 3000 events)
+         nothing is claimed.
+   * C03_repaired_* : the former refutation witnesses, one per repaired site -- the inputs that used to panic are now
+     parsed (optional metadata: early name sections, producers sections) or rejected with Err.
    * C03_inventory_* (vm_compute over the table *generated* from /repo/src on every check): every syntactic
      unwrap / expect / panic!-like macro / index / slice / arithmetic site of the functions reachable from
-     Module::parse and Component::parse has a status in Model/PanicSites.v and vice versa; none is Unknown; the
-     classes marked Reachable are exactly the known table.  A new unwrap on the parse path breaks
-     C03_inventory_covered.  The `Guarded` statuses are one-line arguments by reading, not proofs.
+     Module::parse and Component::parse has a status in Model/PanicSites.v and vice versa; none is Unknown; none is
+     Reachable.  A new unwrap on the parse path breaks C03_inventory_no_site_without_status.  The `Guarded` statuses
+     are one-line arguments by reading, not proofs.
    * C03_checker_sound / C03_no_unlisted_failures: the verdict computed for a sampled case is the property. *)
 From Coq Require Import List NArith Bool.
 From Orca Require Import Base.Util Model.ParseGlue Gen.GenInventory Model.PanicSites Check.CheckParse Proofs.ParseProofs.
@@ -40,49 +42,59 @@ Theorem C03_partial_component : forall (mm : bool) (s : list cev) (k : N),
 Proof. exact parse_comp_glue_panics_known. Qed.
 Print Assumptions C03_partial_component.
 
-(* the hypotheses are satisfiable and the conclusion is not vacuous: every listed site is reached by some input *)
+(* table-driven form (vacuous while `known_panic_sites` is empty): every listed site is reached by some input *)
 Theorem C03_known_sites_all_reached : forall k, In k known_panic_sites ->
   (exists mm s, parse_glue mm s = OPanic k) \/ (exists mm s, parse_comp_glue mm s = OPanic k).
 Proof. exact every_known_site_reached. Qed.
 Print Assumptions C03_known_sites_all_reached.
 
-(* ---- refutations, one per site -------------------------------------------------------------------------- *)
-(* (valid) a name section that names local function 0 and stands before the code section *)
-Example C03_refuted_name_before_code : parse_glue false w_name_before_code = OPanic 901 /\ parse_glue false w_name_after_code = OOk.
-Proof. split; [exact site_901_reached | exact name_after_code_parses]. Qed.
-(* (valid) a producers section with zero fields *)
-Example C03_refuted_producers_empty : parse_glue false w_producers_empty = OPanic 902.
-Proof. exact site_902_reached. Qed.
-(* (valid with the extended-const proposal) a global initialised by i32.add *)
-Example C03_refuted_extended_const : parse_glue false w_extended_const = OPanic 906.
-Proof. exact site_906_reached. Qed.
-(* (valid) a function name whose index is past the last function *)
-Example C03_refuted_name_index : parse_glue false w_name_index_past_end = OPanic 901.
-Proof. exact site_901_reached'. Qed.
-(* (valid) producers field with an unknown name / a value that is not UTF-8 *)
-Example C03_refuted_producers_field : parse_glue false w_producers_badfield = OPanic 903.
-Proof. exact site_903_reached. Qed.
-Example C03_refuted_producers_values : parse_glue false w_producers_badvalue = OPanic 904.
-Proof. exact site_904_reached. Qed.
-(* (malformed) tag section with a non-zero attribute byte *)
-Example C03_refuted_tag_section : parse_glue false w_tag_attribute = OPanic 905.
-Proof. exact site_905_reached. Qed.
-(* (invalid, well-formed) function of an undefined type / of an array type *)
-Example C03_refuted_func_type_missing : parse_glue false w_func_type_missing = OPanic 907.
-Proof. exact site_907_reached. Qed.
-Example C03_refuted_func_type_kind : parse_glue false w_func_type_array = OPanic 908.
-Proof. exact site_908_reached. Qed.
-(* (valid) name maps with an unreadable entry *)
-Example C03_refuted_namemap : parse_glue false w_namemap = OPanic 909.
-Proof. exact site_909_reached. Qed.
-Example C03_refuted_indirect_namemap : parse_glue false w_indirect_namemap = OPanic 910.
-Proof. exact site_910_reached. Qed.
-(* (accepted by the validator) component-name map with an unreadable entry *)
-Example C03_refuted_component_namemap : parse_comp_glue false w_comp_namemap = OPanic 911.
-Proof. exact site_911_reached. Qed.
-(* (truncated) nested module section longer than the enclosing slice *)
-Example C03_refuted_component_slice : parse_comp_glue false w_comp_slice = OPanic 912.
-Proof. exact site_912_reached. Qed.
+Theorem C03_model_never_panics : forall (mm : bool) (s : list mev) (k : N), parse_glue mm s <> OPanic k.
+Proof. exact parse_glue_never_panics. Qed.
+Print Assumptions C03_model_never_panics.
+
+Theorem C03_model_never_panics_component : forall (mm : bool) (s : list cev) (k : N), parse_comp_glue mm s <> OPanic k.
+Proof. exact parse_comp_glue_never_panics. Qed.
+Print Assumptions C03_model_never_panics_component.
+
+Theorem C03_no_known_site : known_panic_sites = [].
+Proof. reflexivity. Qed.
+
+(* ---- the former refutations, one per repaired site ------------------------------------------------------- *)
+(* D09a (valid) a name section that names local function 0 and stands before the code section: parsed *)
+Example C03_repaired_name_before_code : parse_glue false w_name_before_code = OOk /\ parse_glue false w_name_after_code = OOk.
+Proof. split; [exact name_before_code_parses | exact name_after_code_parses]. Qed.
+(* D09a (valid) a function name whose index is past the last function: parsed (the name is dropped) *)
+Example C03_repaired_name_index : parse_glue false w_name_index_past_end = OOk.
+Proof. exact name_index_past_end_parses. Qed.
+(* D09b-d (valid) producers section with zero fields / unknown field name / a value that is not UTF-8: parsed *)
+Example C03_repaired_producers_empty : parse_glue false w_producers_empty = OOk.
+Proof. exact producers_empty_parses. Qed.
+Example C03_repaired_producers_field : parse_glue false w_producers_badfield = OOk.
+Proof. exact producers_badfield_parses. Qed.
+Example C03_repaired_producers_values : parse_glue false w_producers_badvalue = OOk.
+Proof. exact producers_badvalue_parses. Qed.
+(* D09e (malformed) tag section with a non-zero attribute byte: Err *)
+Example C03_repaired_tag_section : parse_glue false w_tag_attribute = OErr.
+Proof. exact tag_attribute_rejected. Qed.
+(* D09f (valid with the extended-const proposal, which the IR does not represent) a global initialised by i32.add: Err *)
+Example C03_repaired_extended_const : parse_glue false w_extended_const = OErr.
+Proof. exact extended_const_rejected. Qed.
+(* D09g / D09h (invalid, well-formed) function of an undefined type / of an array type: Err *)
+Example C03_repaired_func_type_missing : parse_glue false w_func_type_missing = OErr.
+Proof. exact func_type_missing_rejected. Qed.
+Example C03_repaired_func_type_kind : parse_glue false w_func_type_array = OErr.
+Proof. exact func_type_array_rejected. Qed.
+(* D09i / D09j (valid) name maps with an unreadable entry: Err *)
+Example C03_repaired_namemap : parse_glue false w_namemap = OErr.
+Proof. exact namemap_rejected. Qed.
+Example C03_repaired_indirect_namemap : parse_glue false w_indirect_namemap = OErr.
+Proof. exact indirect_namemap_rejected. Qed.
+(* D09k component-name map with an unreadable entry: Err *)
+Example C03_repaired_component_namemap : parse_comp_glue false w_comp_namemap = OErr.
+Proof. exact comp_namemap_rejected. Qed.
+(* D09l (truncated) nested module section longer than the enclosing slice: Err *)
+Example C03_repaired_component_slice : parse_comp_glue false w_comp_slice = OErr.
+Proof. exact comp_slice_rejected. Qed.
 
 (* ---- inventory ------------------------------------------------------------------------------------------ *)
 Theorem C03_inventory_no_site_without_status : sites_without_status = [].
@@ -115,8 +127,13 @@ Theorem C03_no_unlisted_failures : forall c, agree c = true -> modelled c = true
 Proof. exact agreeing_failures_are_known. Qed.
 Print Assumptions C03_no_unlisted_failures.
 
-(* a non-trivial case satisfying the hypotheses: the (valid) module with an empty producers section, as observed *)
+(* a non-trivial case satisfying the hypotheses: the (valid) module with an empty producers section, as observed now *)
 Example C03_case_example :
+  let c := mkPCase (mkPInput w_producers_empty [CSkip; CSkip; CSkip; CSkip]) OOk OOk OOk in
+  agree c = true /\ modelled c = true /\ holds03 c = true /\ known03 c = [].
+Proof. vm_compute. repeat split; reflexivity. Qed.
+(* ... and what an observed panic would be: a disagreement with the model and an unlisted failure *)
+Example C03_case_panic_is_unlisted :
   let c := mkPCase (mkPInput w_producers_empty [CSkip; CSkip; CSkip; CSkip]) (OPanic 902) (OPanic 902) OOk in
-  agree c = true /\ modelled c = true /\ holds03 c = false /\ known03 c = [902].
+  agree c = false /\ holds03 c = false /\ known03 c = [].
 Proof. vm_compute. repeat split; reflexivity. Qed.
